@@ -342,6 +342,21 @@ namespace c13
         out.scal.push_back((A.bytes() > 0u && gate.bytes() > 0u) ? 1.0 : 0.0);
         r.format(-77.0); A.apply_transposed(r, x); put(0, r.local());
         r.format(-77.0); A.apply_transposed(r, x, y, 0.5); put(1, r.local());
+        // asynchronous matrix-vector products: the ticket has to be waited for
+        {
+          GVec ra(&gate, Vec(n)), rb(&gate, Vec(n)), rc(&gate, Vec(n)), rd(&gate, Vec(n));
+          ra.format(-77.0); rb.format(-77.0); rc.format(-77.0); rd.format(-77.0);
+          auto ta = A.apply_async(ra, x);
+          auto tb = A.apply_async(rb, x, y, -0.5);
+          auto tc = A.apply_transposed_async(rc, x);
+          auto td = A.apply_transposed_async(rd, x, y, 0.5);
+          td.wait(); tb.wait(); tc.wait(); ta.wait();
+          const double* p0 = raw(r.local());   // r holds apply_transposed(r, x, y, 0.5)
+          for(size_t k = 0; k < size_t(n) * size_t(bs); ++k) if(raw(rd.local())[k] != p0[k]) { out.note += "apply_transposed_async(r,x,y,alpha) differs from apply_transposed(r,x,y,alpha); "; break; }
+          if(out.vec[0].size() == size_t(n) * size_t(bs)) for(size_t k = 0; k < out.vec[0].size(); ++k) if(raw(rc.local())[k] != out.vec[0][k]) { out.note += "apply_transposed_async(r,x) differs from apply_transposed(r,x); "; break; }
+          out.vec[2].assign(raw(ra.local()), raw(ra.local()) + size_t(n) * size_t(bs));
+          out.vec[3].assign(raw(rb.local()), raw(rb.local()) + size_t(n) * size_t(bs));
+        }
         { auto t = x.min_abs_element_async(); out.scal.push_back(t.wait()); }
         { auto t = x.max_element_async(); out.scal.push_back(t.wait()); }
         { auto t = x.min_element_async(); out.scal.push_back(t.wait()); }
@@ -356,9 +371,9 @@ namespace c13
           Global::Vector<Vec3, Mirror> r3(&gate3, Vec3(n)), y3(&gate3, Vec3(n));
           for(Index j = 0; j < n; ++j) for(int c = 0; c < 3; ++c) raw(y3.local())[size_t(j) * 3u + size_t(c)] = val_v(R.p2b[size_t(j)], c);
           r3.format(-77.0); Ar.apply_transposed(r3, x);
-          out.vec[2].assign(raw(r3.local()), raw(r3.local()) + size_t(n) * 3u);
+          out.mat.assign(raw(r3.local()), raw(r3.local()) + size_t(n) * 3u);
           r3.format(-77.0); Ar.apply_transposed(r3, x, y3, -0.5);
-          out.vec[3].assign(raw(r3.local()), raw(r3.local()) + size_t(n) * 3u);
+          out.mat.insert(out.mat.end(), raw(r3.local()), raw(r3.local()) + size_t(n) * 3u);
           out.scal.push_back(double(Ar.rows())); out.scal.push_back(double(Ar.columns()));
         }
         // Splitter: converted to float / unsigned int, moved, and the file round trip join_write_out -> split_read_from
@@ -391,6 +406,18 @@ namespace c13
           out.vec[5].assign(size_t(n) * size_t(bs), 0.0);
           for(size_t k = 0; k < out.vec[5].size(); ++k) out.vec[5][k] = double(raw(xf)[k]);
           out.scal.push_back((sp.bytes() > 0u || rank != 0) ? 1.0 : 0.0);
+          // convert(other, vector template): a splitter / muxer for another vector type over the same mirrors
+          {
+            typedef LAFEM::DenseVectorBlocked<double, Index, 3> Vec3;
+            Global::Splitter<Vec3, Mirror> sp3;
+            sp3.convert(sp, Vec3(n), LAFEM::CloneMode::Deep);
+            if(rank == 0) sp3.set_base_vector_template(Vec3(N));
+            Vec3 vb3, x3(n);
+            if(rank == 0) { vb3 = Vec3(N); for(Index i = 0; i < N; ++i) for(int c = 0; c < 3; ++c) raw(vb3)[size_t(i) * 3u + size_t(c)] = val_u(i, c); }
+            x3.format(-77.0);
+            sp3.split(x3, vb3);
+            for(Index j = 0; j < n; ++j) for(int c = 0; c < 3; ++c) if(raw(x3)[size_t(j) * 3u + size_t(c)] != val_u(R.p2b[size_t(j)], c)) { out.note += "Splitter::convert(other, vector): split through the converted splitter is wrong; "; j = n; break; }
+          }
         }
       }
       break;
